@@ -44,6 +44,10 @@ def yaml_text() -> str:
             lines.append(f"      z_{t}: {t}[{n}]")
         lines += [f"      bz: byte[{n}]", f"      sz: VSUB[{n}]"]
     lines += ["  VSIG:", "    id: 6100", "    fields: null"]
+    # definitions whose own field names are the keys of the header-plus-data layout
+    lines += ["  VHD:", "    id: 6101", "    fields:", "      header: double", "      data: double"]
+    lines += ["  VHD2:", "    id: 6102", "    fields:", "      header: VSUB", "      data: VSUB"]
+    lines += ["  VHD3:", "    id: 6103", "    fields:", "      data: int16[2]", "      header: char[4]", "      more: int32"]
     return "\n".join(lines) + "\n"
 
 
